@@ -248,13 +248,16 @@ def reshape_session(cs, sk, dk):
     return Session(stmts, 0, want_src, [Check(1, sig, acc, "m", dk, r2, c2, exps, rej_sig=f"C12/reshape/kind={sk}" if sk == dk else None)], info)
 
 
-def set_session(cs, sk, dk):
+def set_session(cs, sk, dk, lossy=False):
     r, c = cs["r"], cs["c"]
     if sk == dk: tv = lambda t: render.token_value(sk, t)
+    elif lossy: tv = lambda t: ('num', sk, Fraction(10) + Fraction(3 * t, 4))     # 10, 10.75, 11.5, 12.25 (dyadic: exact in f32 / f64): distinct sources, colliding images
     else: tv = lambda t: ('num', sk, Fraction(10 + t))
     vals = [tv(t) for t in cs["d"]]
-    want = {(v if sk == dk else ('num', dk, v[2])) for v in (tv(t) for t in cs["set"])}
-    sig = f"C12/set/{sk}>{dk}" if sk != dk else f"C12/set/{sk}"
+    # matrix -> set converts every element by the scalar rule (float -> integer truncates toward zero) and keeps the DISTINCT images
+    img = (lambda v: ('num', dk, Fraction(int(v[2])))) if lossy else (lambda v: v if sk == dk else ('num', dk, v[2]))
+    want = {img(tv(t)) for t in cs["set"]}
+    sig = (f"C12/set/{sk}>{dk}" + ("/colliding" if lossy else "")) if sk != dk else f"C12/set/{sk}"
     info = {"case": {k: cs[k] for k in ("r", "c", "d", "set")}, "src_kind": sk, "dst_kind": dk}
     stmts = [render.define_matrix("m", sk, r, c, vals), f"y<{{{dk}}}> := m", f"m<{{{dk}}}>"]
     acc = "must" if sk == dk else "free"
@@ -464,6 +467,9 @@ def run(rep, tier, seed):
             prs += [conv[n % len(conv)]] if quick else conv
             for sk, dk in prs:
                 sessions.append(set_session(cs, sk, dk))
+            # lossy conversions whose images collide (two distinct elements become one): the set holds the distinct IMAGES and reports their number
+            for sk, dk in ([("f64", "u8"), ("f32", "i16")][n % 2:][:1] if quick else [("f64", "u8"), ("f32", "i16"), ("f64", "i64")]):
+                sessions.append(set_session(cs, sk, dk, lossy=True))
     reqs = [{"id": i, "mode": "session", "stmts": s.stmts, "opts": {"arm": True}} for i, s in enumerate(sessions)]
     log(f"[C12] replaying {len(reqs)} sessions ({sum(len(r['stmts']) for r in reqs)} statements); not expressible: {dict(skipped)}")
     outs = execpool.run_requests(reqs, nworkers=16, timeout=120)
